@@ -15,7 +15,8 @@ have = {f["id"] for f in keep}
 clash = [f["id"] for f in mine if f["id"] in have]
 if clash:
     print("ID CLASH, rename on the branch first:", clash); sys.exit(1)
-ours["findings"] = keep + mine
+newF = [f for f in theirs["findings"] if f["id"].startswith("F") and f["id"] not in have and f["id"] not in {m["id"] for m in mine}]
+ours["findings"] = keep + mine + newF
 json.dump(ours, open("known_findings.json", "w"), indent=1)
 print("known findings of", pid, ":", [(f["id"], f["status"]) for f in mine])
 PY
